@@ -455,6 +455,9 @@ func c19Shapes(c *Ctx) {
 							}
 						}
 					}
+					if len(w)%4 == 2 {
+						poolChildren(nodes)
+					}
 					k.Input("shape", w)
 					checkTraversals(k, root, false)
 					if k.Failed() {
@@ -495,15 +498,45 @@ func c19Random(c *Ctx) {
 					root.Children = append(root.Children, &newick.Node{})
 				}
 			}
+			// Children slices laid out as adjacent sub-slices of one flat pool (as
+			// clustering code builds trees): a stray append through one node's slice
+			// would land in its neighbour's children.
+			if r.IntN(3) == 0 {
+				poolChildren(nodes)
+				k.Count("pooled_children_trees", 1)
+			}
 			k.Input("nodes", size)
 			if size <= 60 {
 				k.Input("tree", treeKey(root))
 			}
 			checkTraversals(k, root, size > 5000)
+			if k.Failed() {
+				return // the tree may be corrupted (even cyclic): do not walk it again
+			}
 			if size >= 2 {
 				k.Nontrivial([]byte(fmt.Sprint(size)), []byte(shapeDigest(root)))
 			}
 		})
+	}
+}
+
+// poolChildren re-lays every node's Children as a sub-slice of one shared
+// backing array (capacity running into the following nodes' children).
+func poolChildren(nodes []*newick.Node) {
+	total := 0
+	for _, n := range nodes {
+		total += len(n.Children)
+	}
+	pool := make([]*newick.Node, total)
+	off := 0
+	for _, n := range nodes {
+		c := len(n.Children)
+		if c == 0 {
+			continue
+		}
+		copy(pool[off:], n.Children)
+		n.Children = pool[off : off+c]
+		off += c
 	}
 }
 
